@@ -709,6 +709,13 @@ func (m *model) evalRule(r *Rule, phase int) {
 			st = status
 		}
 		m.interrupt(&Intr{RuleID: r.ID, Action: "redirect", Status: st, Data: redirect}, phase)
+	case "allow", "allow:phase", "allow:request":
+		if phase == 5 {
+			// "ends the current phase" and "the logging phase always runs" pull in different directions here
+			m.amb("allow executed inside the logging phase")
+		}
+	}
+	switch action {
 	case "allow":
 		if m.engine == "On" {
 			m.allow = 3
